@@ -317,7 +317,11 @@ def fault_load():
 def fault_ecall():
     def prog():
         return [SW(R("w_rs1"), R("w_rs2"), sym_int("w_imm", -2048, 2047)), ECALL(), ADD(8, 9, 10)]
-    equivalence(prog)
+
+    def prep(st):
+        # any ecall code except 4 (print-string: an unbounded loop over memory, covered with a length bound in C01)
+        assume(int(st.register_file.registers[17]) != 4)
+    equivalence(prog, prepare=prep)
 
 
 @unit("C02/canary/hazard-detection-off-is-equivalent", canary=True)
